@@ -213,6 +213,8 @@ def guard_facts(
 
     def kill(n: Node, f: Fact) -> bool:
         text = f[0]
+        if text.startswith("@alias:"):
+            return alias_kill(n, f)
         if text.startswith("@"):
             return bool(extra_kill and extra_kill(n, f))
         if extra_kill and extra_kill(n, f):
@@ -246,8 +248,38 @@ def guard_facts(
 
     def gen(n: Node) -> List[Fact]:
         out = list(const_assign_facts(n))
+        # named boolean: `flag = <pure test expression>` is remembered as an alias fact; a later
+        # branch on `flag` then yields the facts of the expression (if nothing invalidated it)
+        if n.kind == "stmt" and isinstance(n.ast, (ast.Assign, ast.AnnAssign)) and n.ast.value is not None and not n.suspends:
+            tg = n.ast.targets if isinstance(n.ast, ast.Assign) else [n.ast.target]
+            v = n.ast.value
+            if len(tg) == 1 and isinstance(tg[0], ast.Name) and isinstance(v, (ast.Compare, ast.BoolOp, ast.UnaryOp, ast.Call, ast.Attribute)) and not isinstance(v, ast.Constant):
+                if _pure_test(v) and tg[0].id not in q.names_in(v):
+                    out.append(("@alias:%s=%s" % (tg[0].id, q.unparse(v)), True))
         if extra_gen is not None:
             out.extend(extra_gen(n) or ())
+        return out
+
+    def alias_kill(n: Node, f: Fact) -> bool:
+        name, _, text = f[0][len("@alias:"):].partition("=")
+        assigned, _r, _s, _p, _su = effects_of(n)
+        if name in assigned:
+            return True
+        # invalidated exactly when a fact about the expression would be
+        return kill(n, (text, True))
+
+    def alias_facts(kept: FrozenSet[Fact], test: ast.AST, pol: bool) -> List[Fact]:
+        t, p = canon_fact(test, pol)
+        if not t.isidentifier():
+            return []
+        out: List[Fact] = []
+        for f in kept:
+            if f[0].startswith("@alias:%s=" % t):
+                try:
+                    e = ast.parse(f[0].split("=", 1)[1], mode="eval").body
+                except SyntaxError:
+                    continue
+                out.extend(_facts_of(e, p))
         return out
 
     reach = cfg.reachable()
@@ -275,13 +307,40 @@ def guard_facts(
             else:
                 out = kept_n | g
                 if n.kind == "test" and kind in ("true", "false"):
-                    out = out | {canon_fact(n.ast, kind == "true")}
+                    out = out | {canon_fact(n.ast, kind == "true")} | frozenset(alias_facts(kept_n, n.ast, kind == "true"))
             old = IN[sid]
             new = out if old is None else (old & out)
             if old is None or new != old:
                 IN[sid] = new
                 work.append(sid)
     return {k: (v if v is not None else frozenset()) for k, v in IN.items()}
+
+
+def _pure_test(e: ast.AST) -> bool:
+    for x in ast.walk(e):
+        if isinstance(x, ast.Call):
+            if isinstance(x.func, ast.Attribute) and x.func.attr in PURE_METHODS:
+                continue
+            if q.dotted(x.func) in PURE_FUNCS:
+                continue
+            return False
+        if isinstance(x, (ast.Await, ast.Yield, ast.YieldFrom, ast.NamedExpr, ast.Lambda)):
+            return False
+    return True
+
+
+def _facts_of(e: ast.AST, pol: bool) -> List[Fact]:
+    """facts implied by expression ``e`` having truth value ``pol``"""
+    while isinstance(e, ast.UnaryOp) and isinstance(e.op, ast.Not):
+        e = e.operand
+        pol = not pol
+    if isinstance(e, ast.BoolOp):
+        if isinstance(e.op, ast.And) and pol:
+            return [f for v in e.values for f in _facts_of(v, True)]
+        if isinstance(e.op, ast.Or) and not pol:
+            return [f for v in e.values for f in _facts_of(v, False)]
+        return [canon_fact(e, pol)]
+    return [canon_fact(e, pol)]
 
 
 def has(facts: FrozenSet[Fact], text: str, pol: bool) -> bool:
@@ -667,3 +726,131 @@ def expand_expr(repo: Repo, fi: FuncInfo, e: ast.AST, depth: int = 4, locals_too
         return T().visit(x)
 
     return ast.fix_missing_locations(rec(e, depth))
+
+
+# ---------------------------------------------------------------------------
+# SETTLE on guard_facts (named booleans, helper-aware kills)
+
+
+def settles_guarded(ck, rule: str, fi: FuncInfo, fut: Optional[str] = None, effects: Optional[ClassEffects] = None, allow_safe_unguarded: bool = True) -> int:
+    """Like rules.check_settles but on :func:`guard_facts` (so that a guard held in a
+    named boolean, `ok = not F.done(); if ok: F.set_result(..)`, is recognised)."""
+    from .rules import settle_sites, event_created
+
+    facts = guard_facts(fi, effects)
+    created = event_created(fi)
+    n = 0
+    for node, c, p, kind in settle_sites(fi, fut):
+        n += 1
+        f = facts[node.id]
+        ok, why = False, ""
+        if has(f, "%s.done()" % p, False):
+            ok, why = True, "guarded by not %s.done()" % p
+        elif ("@created:" + p, True) in created[node.id]:
+            ok, why = True, "future created in this function, no suspension/escape since"
+        elif kind == "safe" and allow_safe_unguarded:
+            ok, why = True, "*_unless_cancelled form"
+        ck.ob(rule, fi, c, ok, "settle of %s must be guarded (not done() / fresh future / take-and-clear)%s" % (p, (": " + why) if why else ""))
+    return n
+
+
+def reaching_value(fi: FuncInfo, name: str, node: Node) -> Optional[ast.AST]:
+    """Value of the unique assignment to local ``name`` that reaches ``node`` on every
+    path (closest dominating store, no other store in between); None if there is none."""
+    cfg = fi.cfg
+    stores = cfg.stmt_nodes(lambda m: m.kind == "stmt" and isinstance(m.ast, (ast.Assign, ast.AnnAssign)) and q.assigned_paths(m.ast) == {name} and getattr(m.ast, "value", None) is not None)
+    others = cfg.stmt_nodes(lambda m: m.kind in ("stmt", "for", "with") and m not in stores and name in _bound_names(m))
+    doms = [m for m in stores if m.id != node.id and cfg.dominates(m, node)]
+    if not doms:
+        return None
+    best = [m for m in doms if all(cfg.dominates(o, m) for o in doms)]
+    if len(best) != 1:
+        return None
+    b = best[0]
+
+    def reach(src: int, stop: int) -> Set[int]:
+        seen: Set[int] = set()
+        work = [src]
+        while work:
+            x = work.pop()
+            for y, _k in cfg.succ[x]:
+                if y not in seen and y != stop:
+                    seen.add(y)
+                    work.append(y)
+        return seen
+
+    after_b = reach(b.id, node.id)
+    for o in list(stores) + list(others):
+        if o is not b and o.id in after_b:
+            full = reach(o.id, -1)
+            if node.id in full:
+                return None
+    return b.ast.value
+
+
+def _bound_names(m: Node) -> Set[str]:
+    if m.kind == "for":
+        return {x.id for x in ast.walk(m.ast.target) if isinstance(x, ast.Name)}
+    if m.kind == "with":
+        return {x.id for it in m.ast.items if it.optional_vars is not None for x in ast.walk(it.optional_vars) if isinstance(x, ast.Name)}
+    if isinstance(m.ast, ast.stmt):
+        return {p for p in q.assigned_paths(m.ast) if "." not in p and "[" not in p}
+    return set()
+
+
+def resolve_at(repo: Repo, fi: FuncInfo, e: ast.AST, node: Node, stop: Optional[Callable[[ast.AST], bool]] = None, depth: int = 5) -> ast.AST:
+    """Substitute local names in ``e`` (evaluated at CFG node ``node``) by their unique
+    reaching definitions, recursively, as long as the definition is foldable
+    (constants, operators, len/min/max, inlinable helpers); ``stop(value)`` true keeps
+    the name.  Works with locals that are assigned in several branches."""
+    import copy
+
+    params = set(fi.params())
+
+    def foldable(v: ast.AST) -> bool:
+        for y in ast.walk(v):
+            if isinstance(y, ast.Call) and not (isinstance(y.func, ast.Name) and y.func.id in ("range", "bool", "int", "len", "str", "min", "max")):
+                return False
+            if isinstance(y, (ast.Await, ast.Yield, ast.YieldFrom, ast.Lambda, ast.ListComp, ast.GeneratorExp, ast.DictComp, ast.SetComp)):
+                return False
+        return True
+
+    def rec(x: ast.AST, at: Node, d: int) -> ast.AST:
+        if d <= 0:
+            return x
+
+        class T(ast.NodeTransformer):
+            def visit_Name(self, nm):
+                if not isinstance(nm.ctx, ast.Load) or nm.id in params or nm.id in ("self", "cls"):
+                    return nm
+                v = reaching_value(fi, nm.id, at)
+                if v is None or not foldable(v) or (stop is not None and stop(v)):
+                    return nm
+                defs = [m for m in fi.cfg.stmt_nodes(lambda m: m.kind == "stmt" and getattr(m.ast, "value", None) is v)]
+                return rec(copy.deepcopy(v), defs[0] if defs else at, d - 1)
+
+        return T().visit(copy.deepcopy(x))
+
+    return ast.fix_missing_locations(rec(e, node, depth))
+
+
+def missing_effect(ck, rule: str, fi: FuncInfo, effects: Optional[ClassEffects], attrs: Iterable[str], what: str, construct: str, only_calls: Optional[Callable[[ast.Call], bool]] = None) -> None:
+    """The required effect (a write to one of ``attrs``) was not found in ``fi``.  This is a
+    VIOLATION only if ``fi`` is fully recognised: when it calls a same-class method that may
+    write the attribute (or whose effects are unknown), or hands ``self`` to a same-module
+    function, the effect may have moved into that helper -> AnalysisError (unknown shape)."""
+    attrs = set(attrs)
+    for c in q.calls(fi.node):
+        if only_calls is not None and not only_calls(c):
+            continue
+        if isinstance(c.func, ast.Attribute):
+            recv = c.func.value
+            is_super = isinstance(recv, ast.Call) and q.dotted(recv.func) == "super"
+            if (q.dotted(recv) == "self" or is_super) and effects is not None and c.func.attr in effects.methods:
+                w = effects.writes(c.func.attr)
+                if w is None or (attrs & set(w)):
+                    raise AnalysisError("%s: not found in %s itself, but %s() may do it (helper not followed)" % (what, fi.qualname, c.func.attr))
+        elif isinstance(c.func, ast.Name) and c.func.id in fi.module.funcs:
+            if any((q.dotted(a) or "").split(".")[0] == "self" for a in list(c.args) + [k.value for k in c.keywords]):
+                raise AnalysisError("%s: not found in %s itself, but it hands self to %s() (helper not followed)" % (what, fi.qualname, c.func.id))
+    ck.ob(rule, fi, fi.node, False, what, construct=construct)
